@@ -230,10 +230,10 @@ def cmd_run(prop, tier, seed):
         totals["instrs"] += r["instrs"]
         totals["queries"] += r["queries"]
         totals["solver_s"] += r["solver_s"]
-        funcs.update(f for f in r["funcs"] if "Harness" not in f)
-        for k, v in r["stubs"].items():
+        funcs.update(f for f in (r["funcs"] or []) if "Harness" not in f)
+        for k, v in (r["stubs"] or {}).items():
             stubs[k] = stubs.get(k, 0) + v
-        samples += r["samples"][:2]
+        samples += (r["samples"] or [])[:2]
         ent = dict(entry=r["entry"], paths=r["paths"], instrs=r["instrs"], queries=r["queries"], solver_s=round(r["solver_s"], 3),
                    wall_s=round(r["wall_s"], 2), outcomes=r["outcomes"], opts=r["opts"], checks={}, cross=r.get("cross"),
                    truncated=r["truncated"])
@@ -248,7 +248,9 @@ def cmd_run(prop, tier, seed):
             ent["checks"][cid] = cs
             if cs["Unknown"]:
                 inconclusive.append("%s/%s: solver answered unknown on %d path(s)" % (r["entry"], cid, cs["Unknown"]))
-        bad = {k: v for k, v in r["outcomes"].items() if k not in ("ok", "assume", "stop", "panic", "deadlock", "fatal", "exit")}
+        bad = {k: v for k, v in r["outcomes"].items() if k not in ("ok", "assume", "stop", "panic", "deadlock", "fatal", "exit", "spin")}
+        if "nospin" in r["checks"]:
+            bad.pop("unwind", None)
         for k, v in bad.items():
             msgs = [m for m in r["outcome_msgs"] if m.startswith(k + ":")][:3]
             inconclusive.append("%s: %d path(s) ended as %s (%s)" % (r["entry"], v, k, "; ".join(x[:200] for x in msgs)))
@@ -315,7 +317,7 @@ def cmd_run(prop, tier, seed):
             for g in chunk:
                 if check == "nopanic":
                     reproduced |= bool(g["panic"])
-                elif check == "nodeadlock":
+                elif check in ("nodeadlock", "nospin"):
                     reproduced |= g["timeout"]
                 elif check.startswith("race"):
                     reproduced |= False
@@ -332,7 +334,7 @@ def cmd_run(prop, tier, seed):
             rec["path"] = path
             k = known_match(known, prop, entry, check, v["model"])
             if k is not None:
-                knownhits.setdefault(k["id"], []).append(rec)
+                knownhits.setdefault((k["id"], k["entry"]), []).append(rec)
                 continue
             if reproduced:
                 json.dump(rec, open(path, "w"), indent=1)
@@ -341,13 +343,13 @@ def cmd_run(prop, tier, seed):
                 spurious.append(rec)
 
     # ---- report ----
-    for kid, recs in knownhits.items():
-        k = next(x for x in known if x["id"] == kid)
+    for (kid, kentry), recs in knownhits.items():
+        k = next(x for x in known if x["id"] == kid and x["entry"] == kentry)
         print("KNOWN-FINDING: property=%s %s [%s; %d counterexample(s), reproduced natively: %s]" % (
             prop, k["what"], kid, len(recs), any(r["reproduced"] for r in recs)))
     for k in known:
-        if k.get("status", "open") == "open" and k["id"] not in knownhits:
-            print("NOTE: known finding %s was not observed in this run" % k["id"])
+        if k.get("status", "open") == "open" and (k["id"], k["entry"]) not in knownhits:
+            print("NOTE: known finding %s (%s) was not observed in this run" % (k["id"], k["entry"]))
     for rec in confirmed:
         print("VIOLATION property=%s replay=%s" % (prop, rec["path"]))
         print("  obligation %s/%s model=%s %s" % (rec["entry"], rec["check"], json.dumps(rec["model"]), rec.get("note") or ""))
@@ -367,7 +369,7 @@ def cmd_run(prop, tier, seed):
             obligations=totals["obligations"], discharged=totals["discharged"],
             queries=totals["queries"], solver_s=round(totals["solver_s"], 2),
             functions_encoded=sorted(funcs), stubs_hit=stubs, entries=per_entry,
-            inconclusive=inconclusive, known_findings_observed=sorted(knownhits), spurious=len(spurious),
+            inconclusive=inconclusive, known_findings_observed=sorted("%s@%s" % k for k in knownhits), spurious=len(spurious),
             translator_mismatches=mismatched,
             bounds=spec.get("bounds", {}).get(tier, spec.get("bounds")), outside_claim=spec.get("outside"),
             explanation="states = feasible symbolic paths explored; transitions = SSA instructions interpreted; "
@@ -413,7 +415,7 @@ def cmd_replay(path):
     for g in got:
         if rec["check"] == "nopanic":
             ok |= bool(g["panic"])
-        elif rec["check"] == "nodeadlock":
+        elif rec["check"] in ("nodeadlock", "nospin"):
             ok |= g["timeout"]
         else:
             ok |= rec["check"] in (g["fails"] or [])
